@@ -164,12 +164,12 @@ fn environments(
     (
         opt(skip_ws_and_comments(into(terminated(
             identifier,
-            into_inner(skip_ws(tag(INSTRUCTIONS))),
+            into_inner(skip_ws_and_comments(tag(INSTRUCTIONS))),
         )))),
         skip_ws_and_comments(map(
             opt(terminated(
                 into_inner(alt((tag(AUTOMATIC), tag(IMPLICIT), tag(EXPLICIT)))),
-                skip_ws(tag(TAGS)),
+                skip_ws_and_comments(tag(TAGS)),
             )),
             |m| match m {
                 Some(AUTOMATIC) => TaggingEnvironment::Automatic,
